@@ -106,6 +106,7 @@ def run_corpus(tag="memo"):
                       ("unclosed-mixed", lambda d: "let a = " + "".join("([{<"[i % 2] for i in range(d)) + " 'p num;\n"),
                       # well-formed, but every level abandons one alternative after composing nodes (a content with meta-data and no body)
                       ("meta-only-contents", lambda d: "res / on get -> " + "<headers={ 'next " * d + "<status=204>" + " }>" * d + ";\n"),
+                      ("nests-inside-a-rec-body", lambda d: "let a = rec x " + "{ 'p [" * d + "x" + "] }" * d + ";\n"),
                       ("contents-with-bodies", lambda d: "res / on get -> " + "<status=200, { 'next " * d + "<status=204, {}>" + " }>" * d + ";\n")):
         rr = {}
         for d in (3, 5, 7):
@@ -276,6 +277,20 @@ def memo_lemmas(o, L, S, E, MM, MS, fs, structural, on_sat, bad):
                     if len(news) != 1 or ctx != news[0][3]:
                         okp = False
         mirlib.check_translator(o, exq, "oal_syntax::parse")
+        # ... and the switch itself is written by without_cache (and the constructor) only
+        writers = []
+        for fm in MM.funcs:
+            if not fm.args or "grammar::Context<" not in fm.args[0][1]:
+                continue
+            for bb in fm.blocks.values():
+                if bb.cleanup:
+                    continue
+                for st in mp.stmts_of(bb)[0]:
+                    if st[0] == "assign" and st[1][0] == "place" and st[1][1] == 1 and len(st[1][2]) == 2 and st[1][2][0] == ("deref",) and st[1][2][1][:2] == ("f", i_nc):
+                        writers.append(fm.short)
+        o.extra["no_cache_writers"] = sorted(set(writers))
+        structural("Context: the caching switch is written by without_cache only (nothing turns it off for a part of the input)", set(writers) <= {"grammar::without_cache"},
+                   "Context: %s writes the caching switch" % ", ".join(sorted(set(writers) - {"grammar::without_cache"})))
         txt = open(MS.path).read()
         users = sorted(set(m.group(1) for m in re.finditer(r"^fn ([^\n(]+)\(.*?^\}", txt, re.M | re.S) if re.search(r"without_cache(::<[^>]*>)?\(", m.group(0))))
         structural("oal_syntax::parse: the parser runs on Context::new(tokens) with the memo table on (nothing in oal-syntax switches it off)", okp and seen_pp >= 1 and not users,
